@@ -54,6 +54,16 @@ type Model struct {
 	maxQos   byte
 	local    map[string]map[string]byte // in-process subscribers: name -> filter -> qos
 	auth     bool
+	// authFn, when set, decides per user name (selective authenticator)
+	authFn func(user string) bool
+}
+
+// authOK: does the authenticator accept this user?
+func (m *Model) authOK(user string) bool {
+	if m.authFn != nil {
+		return m.authFn(user)
+	}
+	return m.auth
 }
 
 // NewModel returns an empty broker model.
